@@ -1,4 +1,5 @@
 import ScrapliProps.C01Lemmas
+import ScrapliProps.C01Interact
 /-
   C01 — a command's response is exactly what the device printed for that command.
   Property theorems only (helper lemmas and the definitions `Quiet`, `NoEarly`, `PromptOK`,
@@ -138,6 +139,98 @@ theorem expected_is_normalized_strip {P : Bytes → Bool} {cfg : Cfg} {dv : Line
 /-- `normalizeText` on a concrete response: trailing blanks of lines and surrounding empty lines go -/
 example : normalizeText [10, 10, 97, 32, 32, 10, 10, 98, 9, 10, 32, 10] = [97, 10, 10, 98] := by decide
 
+/-! ### interactive sessions (`send_inputs_interact` / `send_interactive`) -/
+
+/-- **C01, interactive sessions, exact for every segmentation of every read**: against a scripted
+    dialogue (each exchange: optional echo, then after the return `body`, the question or prompt line
+    `q`, trailing blanks) with events inside the quantifier (`GoodStep`), the session
+    * completes (never blocks), whatever the read sizes;
+    * takes exactly the exchanges up to and including the first one answered by an
+      interaction-complete pattern instead of the expected response (`consumed`), and the device is
+      left at the rest of its script: no input is typed after the session is over;
+    * writes each of those inputs once, each followed by one return, nothing else;
+    * returns a raw buffer that, together with what is still unread, is the blank residue found at
+      the start followed by exactly the text the device printed for those exchanges, in order — and
+      what is unread is only (a suffix of) the last exchange's trailing blanks: the session is in
+      step, the next operation starts clean;
+    * processed result = `_process_output` of that raw buffer. -/
+theorem interact_exact {cfg : Cfg} {complete : List Bytes} (hstrict : cfg.rough = false)
+    (hret : cfg.ret = [NL]) (ps : List (Ev × Step)) (extra : List Step)
+    (hg : ∀ p ∈ ps, ∃ Pr Pc, GoodStep cfg complete Pr Pc p.1 p.2)
+    (w : Wire) (hres : ∀ x ∈ w.avail, isHws x = true) :
+    ∃ raw w', sendInputsInteract cfg scriptDev (ps.map (·.1)) complete (w, ps.map (·.2) ++ extra) =
+        some ((raw, processOutput cfg raw false),
+              (w', (ps.drop (consumed complete ps).length).map (·.2) ++ extra)) ∧
+      raw ++ w'.avail = w.avail ++ ((consumed complete ps).map (fun p => stepText p.1 p.2)).flatten ∧
+      (∀ x ∈ w'.avail, isHws x = true) ∧
+      (∀ p, (consumed complete ps).getLast? = some p → w'.avail <:+ p.2.t) ∧
+      w'.writes = w.writes ++ ((consumed complete ps).map (fun p => [p.1.1, [NL]])).flatten := by
+  obtain ⟨raw, w', h1, h2, h3, h4, h5⟩ := interactLoop_frames hstrict hret ps extra [] w hg hres
+  refine ⟨raw, w', ?_, by simpa using h2, h3, h4, h5⟩
+  unfold sendInputsInteract
+  rw [h1]
+
+/-- **the processed result of an interactive session is the dialogue, trimmed**: every line of
+    (blank residue ++ the text of the exchanges that took place) right-trimmed, surrounding empty
+    lines dropped.  With no residue (`w.avail = []`) that is the dialogue text alone; a blank residue
+    left by the previous operation stays in front of the first line (known finding F23). -/
+theorem interact_result_normalized {cfg : Cfg} {complete : List Bytes} (hstrict : cfg.rough = false)
+    (hret : cfg.ret = [NL]) (ps : List (Ev × Step)) (hne : ps ≠ []) (extra : List Step)
+    (hg : ∀ p ∈ ps, ∃ Pr Pc, GoodStep cfg complete Pr Pc p.1 p.2)
+    (w : Wire) (hres : ∀ x ∈ w.avail, isHws x = true) :
+    ∃ raw s', sendInputsInteract cfg scriptDev (ps.map (·.1)) complete (w, ps.map (·.2) ++ extra) =
+        some ((raw, normalizeText
+          (w.avail ++ ((consumed complete ps).map (fun p => stepText p.1 p.2)).flatten)), s') := by
+  obtain ⟨raw, w', h1, h2, h3, h4, _⟩ := interact_exact hstrict hret ps extra hg w hres
+  suffices heq : processOutput cfg raw false = normalizeText
+      (w.avail ++ ((consumed complete ps).map (fun p => stepText p.1 p.2)).flatten) from
+    ⟨raw, _, by rw [h1, heq]⟩
+  -- the last exchange that took place
+  obtain ⟨p0, ps0, rfl⟩ := List.exists_cons_of_ne_nil hne
+  obtain ⟨init, last, hl⟩ : ∃ init last, consumed complete (p0 :: ps0) = init ++ [last] := by
+    rcases List.eq_nil_or_concat (consumed complete (p0 :: ps0)) with h | ⟨i, l, h⟩
+    · exact absurd h (consumed_ne_nil complete p0 ps0)
+    · exact ⟨i, l, by rw [h, List.concat_eq_append]⟩
+  have hlast : (consumed complete (p0 :: ps0)).getLast? = some last := by rw [hl]; simp
+  obtain ⟨t', ht'⟩ := h4 last hlast
+  obtain ⟨Pr, Pc, hgl⟩ := hg last (by
+    have : last ∈ consumed complete (p0 :: ps0) := by rw [hl]; simp
+    clear hl hlast h1 h2
+    revert this
+    generalize (p0 :: ps0) = l
+    induction l with
+    | nil => simp [consumed]
+    | cons a l ih =>
+      unfold consumed
+      split
+      · intro h; simp at h; subst h; simp
+      · intro h
+        rcases List.mem_cons.mp h with e | e
+        · subst e; simp
+        · exact List.mem_cons_of_mem _ (ih e))
+  rw [← h2]
+  -- raw = x ++ NL :: (q ++ t')
+  have htext : w.avail ++ ((consumed complete (p0 :: ps0)).map (fun p => stepText p.1 p.2)).flatten =
+      (w.avail ++ (init.map (fun p => stepText p.1 p.2)).flatten ++
+        (if last.2.echo then last.1.1 else []) ++ last.2.body) ++ NL :: (last.2.q ++ t') ++ w'.avail := by
+    rw [hl]
+    simp only [List.map_append, List.map_cons, List.map_nil, List.flatten_append, List.flatten_cons,
+      List.flatten_nil, List.append_nil, stepText, Step.respond, ← ht']
+    simp [List.append_assoc]
+  have hraw : raw = (w.avail ++ (init.map (fun p => stepText p.1 p.2)).flatten ++
+        (if last.2.echo then last.1.1 else []) ++ last.2.body) ++ NL :: (last.2.q ++ t') := by
+    have := h2.trans htext
+    exact List.append_cancel_right this
+  have ht'hws : ∀ x ∈ t', isHws x = true := fun x hx =>
+    hgl.t_hws x (by rw [← ht']; exact List.mem_append_left _ hx)
+  rw [normalizeText_append_hws _ _ h3, hraw]
+  exact processOutput_lines cfg hret _ _ (by simp [hgl.q_ne])
+    (by
+      intro hm
+      rcases List.mem_append.mp hm with h | h
+      · exact hgl.q_nl h
+      · exact hws_noNL ht'hws h)
+
 /-! ### non-vacuity: a concrete pattern, device and commands inside the quantifier -/
 
 def exPrompt : Bytes := [114, 49, 35]                     -- "r1#"
@@ -216,5 +309,190 @@ example (cuts : List Nat) :
   let ⟨rs, w', h1, h2, _, _⟩ := session_exact exFits true [exCmd, exCmd, exCmd]
     (by intro i hi; simp at hi; subst hi; exact exGood) { avail := [32], cuts := cuts } (by intro x hx; simp at hx; subst hx; decide)
   ⟨rs, w', h1, h2⟩
+
+/-! ### non-vacuity of the interactive theorems: `enable` / `Password:` / prompt -/
+
+def ixCfg : Cfg := { prompt := exPat, compile := fun _ => exPat, depth := 32, ret := [NL], rough := false }
+def ixPw : Bytes := [80, 97, 115, 115, 119, 111, 114, 100, 58]          -- "Password:"
+def ixEv1 : Ev := ([101, 110, 97, 98, 108, 101], ixPw, false)            -- "enable", expects "Password:"
+def ixEv2 : Ev := ([115, 51, 99, 114, 51, 116], [], true)                -- hidden "s3cr3t", expects the class prompt
+def ixSt1 : Step := { echo := true, body := [], q := ixPw, t := [32], isResp := true, isComplete := false }
+def ixSt2 : Step := { echo := false, body := [], q := exPrompt, t := [32], isResp := true, isComplete := true }
+/-- the device does not ask for a password: it answers `enable` with its prompt -/
+def ixSt1b : Step := { echo := true, body := [], q := exPrompt, t := [32], isResp := false, isComplete := true }
+
+theorem prefix_one {t' : Bytes} {c : UInt8} (h : t' <+: [c]) : t' = [] ∨ t' = [c] := by
+  rcases t' with _ | ⟨a, _ | ⟨b, r⟩⟩
+  · left; rfl
+  · right
+    obtain ⟨r, hr⟩ := h
+    simp at hr
+    simp [hr.1]
+  · exfalso; have := h.length_le; simp at this
+
+theorem invisible_not_infix {r s L : Bytes} (hr : squishBuf r ≠ []) (hs : s <:+: L) (hL : squishBuf L = []) :
+    isInfixB r s = false := by
+  rw [Bool.eq_false_iff]; intro h
+  exact hr (squishBuf_infix_nil ((isInfixB_iff _ _).mp h) (squishBuf_infix_nil hs hL))
+
+theorem short_not_infix {r s q p : Bytes} (hs : s <:+: q) (hq : q <+: p) (hne : q ≠ p) (hlen : p.length ≤ r.length) :
+    isInfixB r s = false := by
+  rw [Bool.eq_false_iff]; intro h
+  have h1 := ((isInfixB_iff _ _).mp h).length_le
+  have h2 := hs.length_le
+  have h3 := hq.length_le
+  exact hne (hq.eq_of_length (by omega))
+
+theorem quiet_invisible {P : Bytes → Bool} {L : Bytes} (hP : ∀ s, s <:+: L → P s = false) (hnl : NL ∉ L) :
+    Quiet P L := by
+  intro ℓ hℓ s hs
+  rw [splitNL_noNL L hnl] at hℓ
+  have : ℓ = L := by simpa using hℓ
+  subst this
+  exact hP s hs
+
+/-- the completion pattern list of these examples: the literal prompt text -/
+def ixComplete : List Bytes := [exPrompt]
+
+theorem ix_compl_lines : ∀ w, ixComplete.any (fun p => explicitSeen ixCfg p w) = (splitNL w).any (isInfixB exPrompt) := by
+  intro w
+  simp only [ixComplete, List.any_cons, List.any_nil, Bool.or_false]
+  exact literal_lines ixCfg exPrompt (by decide) (by decide) (by decide) w
+
+theorem ixGood1 : GoodStep ixCfg ixComplete (isInfixB ixPw) (isInfixB exPrompt) ixEv1 ixSt1 where
+  no_nl := by decide
+  no_bs := by decide
+  plain := ⟨by decide, by decide⟩
+  echoes := fun _ => ⟨rfl, by decide⟩
+  resp_lines := literal_lines ixCfg ixPw (by decide) (by decide) (by decide)
+  compl_lines := ix_compl_lines
+  quiet := by
+    intro L hL hLnl
+    have : L ++ front ixEv1 ixSt1 ++ ixSt1.body = L := by simp [front, echoRead, ixEv1, ixSt1, ixPw]
+    rw [this]
+    refine quiet_invisible (fun s hs => ?_) hLnl
+    simp only [Bool.or_eq_false_iff]
+    exact ⟨invisible_not_infix (by decide) hs hL, invisible_not_infix (by decide) hs hL⟩
+  noEarly := by
+    intro q hq hne s hs
+    simp only [Bool.or_eq_false_iff]
+    refine ⟨short_not_infix hs hq hne (Nat.le_refl _), ?_⟩
+    -- "r1#" does not occur in "Password:" at all
+    rw [Bool.eq_false_iff]; intro h
+    have h1 : exPrompt <:+: ixPw := (((isInfixB_iff _ _).mp h).trans hs).trans hq.isInfix
+    have : isInfixB exPrompt ixPw = true := (isInfixB_iff _ _).mpr h1
+    revert this; decide
+  flags := by
+    intro t' ht'
+    rcases prefix_one ht' with e | e <;> subst e <;> decide
+  stops := rfl
+  q_ne := by decide
+  q_nl := by decide
+  q_plain := ⟨by decide, by decide⟩
+  body_plain := ⟨by decide, by decide⟩
+  t_hws := by decide
+  fits_window := by decide
+
+theorem ixGood2 : GoodStep ixCfg ixComplete exP (isInfixB exPrompt) ixEv2 ixSt2 where
+  no_nl := by decide
+  no_bs := by decide
+  plain := ⟨by decide, by decide⟩
+  echoes := fun h => absurd h (by decide)
+  resp_lines := fun _ => rfl
+  compl_lines := ix_compl_lines
+  quiet := by
+    intro L hL hLnl
+    have : L ++ front ixEv2 ixSt2 ++ ixSt2.body = L := by simp [front, echoRead, ixEv2, ixSt2]
+    rw [this]
+    refine quiet_invisible (fun s hs => ?_) hLnl
+    simp only [Bool.or_eq_false_iff]
+    exact ⟨exFits.blank s (squishBuf_infix_nil hs hL), invisible_not_infix (by decide) hs hL⟩
+  noEarly := by
+    intro q hq hne s hs
+    simp only [Bool.or_eq_false_iff]
+    exact ⟨exFits.noEarly q hq hne s hs, short_not_infix hs hq hne (Nat.le_refl _)⟩
+  flags := by
+    intro t' ht'
+    rcases prefix_one ht' with e | e <;> subst e <;> decide
+  stops := rfl
+  q_ne := by decide
+  q_nl := by decide
+  q_plain := ⟨by decide, by decide⟩
+  body_plain := ⟨by decide, by decide⟩
+  t_hws := by decide
+  fits_window := by decide
+
+theorem ixGood1b : GoodStep ixCfg ixComplete (isInfixB ixPw) (isInfixB exPrompt) ixEv1 ixSt1b where
+  no_nl := by decide
+  no_bs := by decide
+  plain := ⟨by decide, by decide⟩
+  echoes := fun _ => ⟨rfl, by decide⟩
+  resp_lines := literal_lines ixCfg ixPw (by decide) (by decide) (by decide)
+  compl_lines := ix_compl_lines
+  quiet := by
+    intro L hL hLnl
+    have : L ++ front ixEv1 ixSt1b ++ ixSt1b.body = L := by simp [front, echoRead, ixEv1, ixSt1b, ixPw]
+    rw [this]
+    refine quiet_invisible (fun s hs => ?_) hLnl
+    simp only [Bool.or_eq_false_iff]
+    exact ⟨invisible_not_infix (by decide) hs hL, invisible_not_infix (by decide) hs hL⟩
+  noEarly := by
+    intro q hq hne s hs
+    simp only [Bool.or_eq_false_iff]
+    refine ⟨?_, short_not_infix hs hq hne (Nat.le_refl _)⟩
+    exact short_not_infix hs hq hne (by decide)
+  flags := by
+    intro t' ht'
+    rcases prefix_one ht' with e | e <;> subst e <;> decide
+  stops := rfl
+  q_ne := by decide
+  q_nl := by decide
+  q_plain := ⟨by decide, by decide⟩
+  body_plain := ⟨by decide, by decide⟩
+  t_hws := by decide
+  fits_window := by decide
+
+/-- the full dialogue, arbitrary read sizes: the result is "enable\nPassword:\nr1#" -/
+example (cuts : List Nat) :
+    ∃ raw s', sendInputsInteract ixCfg scriptDev [ixEv1, ixEv2] ixComplete
+        ({ cuts := cuts }, [ixSt1, ixSt2]) =
+      some ((raw, [101, 110, 97, 98, 108, 101, 10, 80, 97, 115, 115, 119, 111, 114, 100, 58, 10, 114, 49, 35]), s') := by
+  obtain ⟨raw, s', h⟩ := interact_result_normalized (cfg := ixCfg) (complete := ixComplete) rfl rfl
+    [(ixEv1, ixSt1), (ixEv2, ixSt2)] (by simp) []
+    (by
+      intro p hp
+      simp only [List.mem_cons, List.not_mem_nil, or_false] at hp
+      rcases hp with e | e <;> subst e
+      · exact ⟨_, _, ixGood1⟩
+      · exact ⟨_, _, ixGood2⟩)
+    { cuts := cuts } (by simp)
+  have hv : normalizeText ((consumed ixComplete [(ixEv1, ixSt1), (ixEv2, ixSt2)]).map
+      (fun p => stepText p.1 p.2)).flatten =
+      [101, 110, 97, 98, 108, 101, 10, 80, 97, 115, 115, 119, 111, 114, 100, 58, 10, 114, 49, 35] := by decide
+  exact ⟨raw, s', by rw [← hv]; simpa using h⟩
+
+/-- the device needs no password (answers `enable` with its prompt): the session ends there, the
+    password is NOT typed (writes are `enable` and one return), the device is left at the rest of
+    its script — for arbitrary read sizes.  (What `fix: c887324` repaired.) -/
+example (cuts : List Nat) :
+    ∃ raw w', sendInputsInteract ixCfg scriptDev [ixEv1, ixEv2] ixComplete
+        ({ cuts := cuts }, [ixSt1b, ixSt2]) =
+      some ((raw, processOutput ixCfg raw false), (w', [ixSt2])) ∧
+      w'.writes = [[101, 110, 97, 98, 108, 101], [NL]] := by
+  obtain ⟨raw, w', h1, _, _, _, h5⟩ := interact_exact (cfg := ixCfg) (complete := ixComplete) rfl rfl
+    [(ixEv1, ixSt1b), (ixEv2, ixSt2)] []
+    (by
+      intro p hp
+      simp only [List.mem_cons, List.not_mem_nil, or_false] at hp
+      rcases hp with e | e <;> subst e
+      · exact ⟨_, _, ixGood1b⟩
+      · exact ⟨_, _, ixGood2⟩)
+    { cuts := cuts } (by simp)
+  exact ⟨raw, w', by simpa [consumed, Step.ends, ixSt1b, ixComplete] using h1,
+    by simpa [consumed, Step.ends, ixSt1b, ixComplete, ixEv1] using h5⟩
+
+/-- known finding F23, in the model: a blank left unread by the previous operation ends up in front
+    of an interactive result (a plain command's result does not depend on it: `send_input_exact`) -/
+example : normalizeText ([32] ++ [101, 10, 114, 49, 35]) ≠ normalizeText ([] ++ [101, 10, 114, 49, 35]) := by decide
 
 end Scrapli.Chan
